@@ -127,6 +127,23 @@ func (f *frame) evalClause(cl Clause, env *SpecEnv) string {
 	return v.Term
 }
 
+// tryEvalClause evaluates a loop clause; a clause that cannot be evaluated at this loop (it names a local the
+// function no longer has, ...) does not take the whole function out of the subset: the clause is simply not
+// available as an assumption and its obligations fail (goal "false"), so a restructured loop is judged, not skipped.
+func (f *frame) tryEvalClause(cl Clause, env *SpecEnv) (term string, ok bool) {
+	defer func() {
+		if r := recover(); r != nil {
+			if e, isSub := r.(ErrSubset); isSub {
+				f.c.warnings = append(f.c.warnings, fmt.Sprintf("%s: loop clause cannot be evaluated (%s): %s", f.path, e.Msg, cl.Text))
+				term, ok = "false", false
+				return
+			}
+			panic(r)
+		}
+	}()
+	return f.evalClause(cl, env), true
+}
+
 // headerPhiOverrides maps loop variable names to values for evaluating invariants.
 // pick selects the value for each header phi.
 func (f *frame) headerPhiOverrides(li *loopInfo, pick func(phi *ssa.Phi) (Val, bool)) map[string]SV {
@@ -214,7 +231,7 @@ func (f *frame) enterLoop(li *loopInfo, in *State) *State {
 		f.seenOverride(li, in, ov)
 		env := f.specEnv(in, b, ov)
 		for i, inv := range li.spec.Invariants {
-			goal := f.evalClause(inv, env)
+			goal, _ := f.tryEvalClause(inv, env)
 			c.oblige(in, lp, fmt.Sprintf("inv-entry%d", i+1), goal, inv.Text, firstPos(b))
 		}
 	} else {
@@ -254,10 +271,14 @@ func (f *frame) enterLoop(li *loopInfo, in *State) *State {
 		f.seenOverride(li, hs, ov)
 		env := f.specEnv(hs, b, ov)
 		for _, inv := range li.spec.Invariants {
-			c.assume(hs, f.evalClause(inv, env))
+			if t, ok := f.tryEvalClause(inv, env); ok {
+				c.assume(hs, t)
+			}
 		}
 		if li.spec.Decreases != nil {
-			li.measure0 = c.define("measure", SInt, f.evalClause(*li.spec.Decreases, env))
+			if t, ok := f.tryEvalClause(*li.spec.Decreases, env); ok {
+				li.measure0 = c.define("measure", SInt, t)
+			}
 		}
 		if clausesMentionDeepcopy(li.spec.Invariants) {
 			c.recordSnap(hs)
@@ -283,11 +304,15 @@ func (f *frame) backEdge(li *loopInfo, from *ssa.BasicBlock, es *State) {
 	env := f.specEnv(es, from, ov)
 	lp := fmt.Sprintf("%s:loop%d", f.path, li.ordinal)
 	for i, inv := range li.spec.Invariants {
-		c.oblige(es, lp, fmt.Sprintf("inv-step%d", i+1), f.evalClause(inv, env), inv.Text, firstPos(li.header))
+		goal, _ := f.tryEvalClause(inv, env)
+		c.oblige(es, lp, fmt.Sprintf("inv-step%d", i+1), goal, inv.Text, firstPos(li.header))
 	}
 	if li.spec.Decreases != nil {
-		m := f.evalClause(*li.spec.Decreases, env)
-		c.oblige(es, lp, "decreases", fmt.Sprintf("(and (>= %s 0) (< %s %s))", li.measure0, m, li.measure0), li.spec.Decreases.Text, firstPos(li.header))
+		if m, ok := f.tryEvalClause(*li.spec.Decreases, env); ok && li.measure0 != "" {
+			c.oblige(es, lp, "decreases", fmt.Sprintf("(and (>= %s 0) (< %s %s))", li.measure0, m, li.measure0), li.spec.Decreases.Text, firstPos(li.header))
+		} else {
+			c.oblige(es, lp, "decreases", "false", li.spec.Decreases.Text, firstPos(li.header))
+		}
 	}
 }
 
@@ -387,8 +412,13 @@ func (f *frame) execInstr(b *ssa.BasicBlock, instr ssa.Instruction, st *State) {
 		} else {
 			f.zeroInitObj(st, ref, et)
 			f.tagAllocKind(st, id, et, false)
-			if nt, ok := et.(*types.Named); ok && nt.Obj().Pkg() != nil && nt.Obj().Pkg().Path() == "strings" && nt.Obj().Name() == "Builder" {
+			if isStringsBuilder(et) {
 				c.assume(st, fmt.Sprintf("(= (select %s %s) str_empty)", st.Heap(sbHeap(g)), ref))
+			} else if isStruct(et) {
+				// builder fields of a new object are empty too (their ghost content lives at the interior key)
+				for _, p := range builderFieldPaths(et, "", 0) {
+					c.assume(st, fmt.Sprintf("(= (select %s %s) str_empty)", st.Heap(sbHeap(g)), interiorKey(ref, p)))
+				}
 			}
 			f.setVal(in, f.mkVal(ref, in.Type()))
 		}
@@ -748,11 +778,25 @@ func (f *frame) execConvert(in *ssa.Convert, st *State) {
 		id := f.allocID(st)
 		f.tagAllocKind(st, id, in.Type(), true)
 		f.c.assume(st, fmt.Sprintf("(= %s (mkslice %s 0 (Str_len %s) (Str_len %s)))", n, id, x.T, x.T))
+		if sl, ok := in.Type().Underlying().(*types.Slice); ok {
+			if b, ok := sl.Elem().Underlying().(*types.Basic); ok && (b.Kind() == types.Uint8) {
+				// []byte(s): the fresh array holds the bytes of s
+				h := st.Heap(g.TE.CellHeap(sl.Elem()))
+				f.c.assume(st, fmt.Sprintf("(forall ((i Int)) (! (=> (and (<= 0 i) (< i (Str_len %s))) (= (select %s (elem %s i)) (Str_at %s i))) :pattern ((select %s (elem %s i)))))", x.T, h, id, x.T, h, id))
+			}
+		}
 		f.setVal(in, Val{T: n, Typ: in.Type()})
 	case from == SSlice && to == SStr:
 		// string(bytes): uninterpreted function of the current content; modelled as a fresh string with the right length
 		n := f.c.declare(valName(in), SStr)
 		f.c.assume(st, fmt.Sprintf("(= (Str_len %s) (slen %s))", n, x.T))
+		if sl, ok := in.X.Type().Underlying().(*types.Slice); ok {
+			if b, ok := sl.Elem().Underlying().(*types.Basic); ok && b.Kind() == types.Uint8 {
+				// string(bytes): byte i of the string is element i of the slice (as it is now)
+				h := st.Heap(g.TE.CellHeap(sl.Elem()))
+				f.c.assume(st, fmt.Sprintf("(forall ((i Int)) (! (=> (and (<= 0 i) (< i (slen %s))) (= (Str_at %s i) (select %s (selem %s i)))) :pattern ((Str_at %s i))))", x.T, n, h, x.T, n))
+			}
+		}
 		f.setVal(in, Val{T: n, Typ: in.Type()})
 	case from == SInt && to == SStr:
 		uf := g.UF("str_of_rune", []string{SInt}, SStr)
@@ -792,4 +836,28 @@ func (f *frame) execTypeAssert(in *ssa.TypeAssert, st *State) {
 	}
 	c.oblige(st, f.path, "safety:assert", okT, "type assertion holds", in.Pos())
 	f.def(in, payload, st)
+}
+
+func isStringsBuilder(t types.Type) bool {
+	nt, ok := t.(*types.Named)
+	return ok && nt.Obj().Pkg() != nil && nt.Obj().Pkg().Path() == "strings" && nt.Obj().Name() == "Builder"
+}
+
+// builderFieldPaths: flattened paths of the strings.Builder fields of struct type t (through inline structs).
+func builderFieldPaths(t types.Type, prefix string, depth int) []string {
+	st, ok := t.Underlying().(*types.Struct)
+	if !ok || depth > 4 {
+		return nil
+	}
+	var out []string
+	for i := 0; i < st.NumFields(); i++ {
+		f := st.Field(i)
+		p := joinPath(prefix, f.Name())
+		if isStringsBuilder(f.Type()) {
+			out = append(out, p)
+		} else if isStruct(f.Type()) {
+			out = append(out, builderFieldPaths(f.Type(), p, depth+1)...)
+		}
+	}
+	return out
 }
